@@ -136,6 +136,8 @@ pub(crate) fn populate_context_from_data<'i>(
 
 /// Writes an executed state of a particle being sent to remote node.
 pub(crate) fn handle_remote_call(peer_pk: String, exec_ctx: &mut ExecutionCtx<'_>, trace_ctx: &mut TraceHandler) {
+    #[cfg(feature = "verif_probes")]
+    air_log_targets::probe::hit("remote_call", peer_pk.clone());
     exec_ctx.next_peer_pks.push(peer_pk);
     exec_ctx.make_subgraph_incomplete();
 
